@@ -386,7 +386,7 @@ impl Engine for C07 {
         let corpus = small_corpus(env);
         let mut docs = Vec::new();
         for _ in 0..n_docs {
-            let d = match w.below(11) {
+            let d = match w.below(13) {
                 0 | 1 => Doc::from_str(&docgen::failing_doc(&mut w).0),
                 2 if !corpus.is_empty() => Doc(corpus[w.usize(corpus.len())].1.clone()),
                 3 => Doc::from_str(&format!(
@@ -401,6 +401,7 @@ impl Engine for C07 {
                 6 => Doc::from_str(&docgen::leak_probe_doc(&mut w)),
                 7 => Doc::from_str(&docgen::stateful_doc(&mut w)),
                 8 => Doc::from_str(&if w.chance(1, 2) { docgen::near_limit_doc(&mut w) } else { docgen::long_line_fragment(&mut w) }),
+                9 => Doc::from_str(&docgen::real_svg_doc(&mut w)),
                 5 if damage => Doc(vec![b'<', b's', b'v', b'g', b'>', 0xff, b'<', b'/', b's', b'v', b'g', b'>']),
                 _ => Doc::from_str(&docgen::feature_doc(&mut w, w_bool(&mut c), true)),
             };
